@@ -30,7 +30,7 @@ use arc_swap::ArcSwap;
 use octseq::Octets;
 use tokio::io::{AsyncRead, AsyncWrite};
 use tokio::net::TcpListener;
-use tokio::sync::watch;
+use tokio::sync::{Notify, watch};
 use tokio::time::{MissedTickBehavior, interval, timeout};
 use tracing::{error, trace, trace_span, warn};
 
@@ -308,6 +308,11 @@ where
 
     /// [`ServerMetrics`] describing the status of the server.
     metrics: Arc<ServerMetrics>,
+
+    /// Signalled whenever a connection handler ends, so that a server that
+    /// stopped accepting at its connection limit notices that there is room
+    /// again.
+    connection_ended: Arc<Notify>,
 }
 
 /// # Creation
@@ -355,6 +360,7 @@ where
             pre_connect_hook: None,
             metrics,
             connection_idx: AtomicUsize::new(0),
+            connection_ended: Arc::new(Notify::new()),
         }
     }
 
@@ -546,6 +552,11 @@ where
                         }
                     }
                 }
+
+                // While not accepting at the connection limit: wait for a
+                // connection to end, then look at the limit again.
+                _ = self.connection_ended.notified(), if !self.accepting_connections() => {
+                }
             }
         }
     }
@@ -645,6 +656,7 @@ where
         let conn_buf = self.buf.clone();
         let conn_metrics = self.metrics.clone();
         let pre_connect_hook = self.pre_connect_hook;
+        let connection_ended = self.connection_ended.clone();
         let new_connection_idx =
             self.connection_idx.fetch_add(1, Ordering::SeqCst);
 
@@ -675,6 +687,7 @@ where
                 trace!("Starting connection handler.");
                 conn.run(conn_command_rx).await;
                 trace!("Connection handler terminated.");
+                connection_ended.notify_one();
             }
         });
     }
